@@ -173,6 +173,8 @@ class CaseHistories(FreshFamily):
             for fi, f in enumerate(self.fams):
                 got = []
                 shards = list(f.shards('quick'))
+                if not shards:
+                    continue          # a family that only exists in the thorough tier
                 # spread over the shards: first, last, then evenly
                 order = sorted(set([0, len(shards) - 1] + [round(k * (len(shards) - 1) / max(1, self.per_family - 1)) for k in range(self.per_family)]))
                 for si in order:
